@@ -178,6 +178,7 @@ func VerifC01_v1simple_handler() {
 		out <- Prioritized[int]{Item: it, Priority: p}
 	}
 	s := &Simple[int]{opts: SimpleOpts[int]{Ctx: ctx, Handle: handle}, output: out, feedback: fb, wg: &sync.WaitGroup{}}
+	vKnownFields(s, "opts priority breaker graceful output feedback wg err")
 	s.wg.Add(1)
 	vOnRecv(out, func(v any, ok bool) {
 		if ok {
